@@ -34,6 +34,8 @@ class Gen:
         self.enums: list[tuple[str, list[str]]] = []
         self.names: list[str] = []
         self.readonly: set[str] = set()
+        self.usable_classes: list[dict] = []
+        self.header: list[str] = []
 
     def use(self, k: str) -> None:
         self.constructs[k] = self.constructs.get(k, 0) + 1
@@ -242,6 +244,20 @@ class Gen:
                 self.use('break_continue')
                 out.append('%sif %s:' % (ind, self.expr(BOOL, env, 1)))
                 out.append('%s\t%s' % (ind, r.choice(['break', 'continue'])))
+            elif k < .93 and self.usable_classes:
+                c = r.choice(self.usable_classes)
+                self.use('class_use')
+                o = self.fresh('o')
+                out.append('%s%s = %s(%s)' % (ind, o, c['name'], ', '.join(self.expr(t, env, 1) for _, t in c['cparams'])))
+                if c['methods']:
+                    mname, params, rt = r.choice(c['methods'])
+                    v = self.fresh('r')
+                    out.append('%s%s = %s.%s(%s)' % (ind, v, o, mname, ', '.join(self.expr(pt, env, 1) for _, pt in params)))
+                    env[v] = rt
+                f0 = r.choice(sorted(c['fields']))
+                v2 = self.fresh('g')
+                out.append('%s%s = %s.%s' % (ind, v2, o, f0))
+                env[v2] = c['fields'][f0]
             elif k < .95 and self.funcs:
                 f, params, rt = r.choice(self.funcs)
                 self.use('call')
@@ -298,6 +314,7 @@ class Gen:
             methods.append((mname, params, rt))
             self.use('method')
         self.classes.append(dict(name=cname, fields=fields, cparams=cparams, methods=methods))
+        self.usable_classes.append(self.classes[-1])
         return out
 
     def enum(self) -> list[str]:
@@ -329,8 +346,11 @@ class Gen:
 
     def module(self, nfuncs: int = 3) -> Program:
         r = self.rnd
-        lines: list[str] = []
+        lines: list[str] = list(self.header)
         entries = []
+        if self.opts['classes'] and r.random() < .35:
+            lines.extend(self.klass())
+            lines.append('')
         if self.opts['enums'] and r.random() < .3:
             lines.insert(0, 'from enum import Enum')
             lines.append('')
@@ -352,3 +372,29 @@ class Gen:
 
 def gen_program(rnd: random.Random, nfuncs: int = 3, opts: dict | None = None) -> Program:
     return Gen(rnd, opts).module(nfuncs)
+
+
+def gen_modules(rnd: random.Random, n: int = 2, pkg: str = 'genpkg', opts: dict | None = None) -> dict[str, Program]:
+    """n modules; module i imports functions and classes of earlier modules (a chain/diamond of imports)"""
+    out: dict[str, Program] = {}
+    exported: list[tuple[str, list, list]] = []
+    uid = 0
+    for i in range(n):
+        g = Gen(rnd, opts)
+        g.uid = uid
+        deps = [e for e in exported if rnd.random() < .8] if exported else []
+        for mod, funcs, classes in deps:
+            names = [f[0] for f in funcs] + [c['name'] for c in classes]
+            if names:
+                g.header.append('from %s import %s' % (mod, ', '.join(names)))
+                g.funcs.extend(funcs)
+                g.usable_classes.extend(classes)
+        if g.header:
+            g.header.append('')
+        nf0 = len(g.funcs)
+        p = g.module(rnd.randint(1, 3))
+        uid = g.uid
+        name = '%s.m%d' % (pkg, i)
+        out[name] = p
+        exported.append((name, g.funcs[nf0:], list(g.classes)))
+    return out
